@@ -435,6 +435,7 @@ bool Hist::opPointColumn() {
 
 bool Hist::opChannelColumn() {
     size_t n = prev.frames.size(); size_t nsub = prev.h.sub;
+    if (nsub > 5000) return false;     // (see opSetRate: no frames are built in such a history)
     bool emptyData = (n == 0);     // nothing stored yet: only the documented refusal 'nothing supplied' can be exercised
     bool chOverGaps = !emptyData && hasGaps(prev);
     if (!wild && !emptyData && (nsub == 0 || (!subsUniform(prev) && !chOverGaps))) return false;
